@@ -474,6 +474,10 @@ def gen_addition(rng, t, i, malformed=0.0, kinds=("def", "trans", "pass", "displ
         kind = "def"
     if kind == "def":
         c = 0x0400 + (i % 0x300)
+        olds = [x for x in t.chars() if x != 0x20]
+        if olds and rng.random() < 0.15:
+            # a character the table (its FILE, for the first additions) already defines: defined again at run time
+            c = rng.choice(olds)
         op = rng.choice(["letter", "lowercase", "sign", "punctuation", "math", "digit", "litdigit", "space", "uppercase"])
         d = [rng.randint(1, 255) for _ in range(rng.randint(1, 2))]
         t.charcell.setdefault(c, d[0])
